@@ -54,13 +54,143 @@ TASKS = [FunctionTask(nth_contract(nm), module_env={"DISTRIBUTION_MAP": DISTRIBU
          for nm in ("normal", "lognormal", "log-normal", "gamma")]
 TASKS += [StructTask("DISTRIBUTION_MAP", map_check)] + LEMMAS
 
+# ---------------------------------------------------------------------------------------------------------------------
+# _nanmean_weighted / _nanstd_weighted for a NaN-free 1-D sample without explicit weights (what every HvsrTraditional accessor passes once the
+# accepted windows have peaks): the textbook mean / sample standard deviation of g(values), g = identity or log.  Sums over the sample are
+# *named* (np.nansum over the elements is trusted: A-NP-SUM): S(g) = sum_i g(v_i), SS(g, m) = sum_i (g(v_i) - m)^2; a sum of n ones is n.
+from pyvc.core import FuncV, ModV, ARef, Tup, Undecided, lit
+from pyvc.npmodel import SQRT, NAN
+
+AR = z3.ArraySort(I, R)
+NV_ = z3.Int("n_values")
+VALS = z3.Const("values", AR)
+S1, SL = z3.Reals("sum_of_values sum_of_log_values")
+SS1, SSL = z3.Function("SS_values", R, R), z3.Function("SS_log_values", R, R)
+
+
+def _names(canon):
+    g = (lambda x: x) if canon == "normal" else (lambda x: LOG(x))
+    return g, (S1 if canon == "normal" else SL), (SS1 if canon == "normal" else SSL)
+
+
+def _sum_model(canon):
+    g, S, SS = _names(canon)
+
+    def f(ex, st, args, kw, node):
+        x = args[0]
+        if not isinstance(x, ARef):
+            return x
+        d = ex.arr(st, x)
+        c0 = z3.Int("c!sum")
+        elem = z3.simplify(z3.Select(d.data, c0))
+        # the sample is NaN-free (precondition): its NaN tests are false
+        v0 = z3.Select(VALS, c0)
+        subs = []
+        for x in (v0, LOG(v0), z3.RealVal(1)):          # (and NaN is not the number one)
+            subs += [(x == NAN, z3.BoolVal(False)), (NAN == x, z3.BoolVal(False))]
+        elem = z3.simplify(z3.substitute(elem, *subs))
+        if z3.is_bool(elem):
+            # remaining NaN tests are on numerals (the unit weights): NaN is not a numeral (A-NAN)
+            elem = z3.simplify(z3.substitute(elem, (NAN, z3.RealVal("-123456789.25"))))
+        if z3.is_bool(elem):
+            if z3.is_true(elem):
+                return d.shape[0]                       # number of entries of an all-True mask
+            raise Undecided(f"np.sum of a mask that is not constant: {elem}")
+        e = g(z3.Select(VALS, c0))
+        if z3.simplify(elem - 1).eq(z3.RealVal(0)):
+            return z3.ToReal(d.shape[0])                # a sum of n ones
+        if z3.simplify(elem - e).eq(z3.RealVal(0)):
+            return S
+        m_ = st.env.get("mean")
+        if m_ is not None and z3.is_expr(lit(m_)):
+            m_ = lit(m_)
+            for cand in ((e - m_) * (e - m_), (e - m_) ** 2):
+                if z3.simplify(elem - cand).eq(z3.RealVal(0)):
+                    return SS(m_)
+        raise Undecided(f"np.nansum of an expression the abstraction does not name: {elem}")
+    return FuncV(f, "np.nansum")
+
+
+def _factory_model(canon):
+    """_distribution_factory: the pre / post functions of PRE_PROCESS_FUNCTION_MAP / POST_PROCESS_FUNCTION_MAP (checked structurally below)"""
+    def f(ex, st, args, kw, node):
+        calc = kw.get("calculation", StrV("mean")).s
+        ident = FuncV(lambda ex_, s_, a, k, n_: a[0], "identity")
+        logf = FuncV(lambda ex_, s_, a, k, n_: npm.NP.attrs["log"].fn(ex_, s_, a, k, n_), "np.log")
+        expf = FuncV(lambda ex_, s_, a, k, n_: npm.NP.attrs["exp"].fn(ex_, s_, a, k, n_), "np.exp")
+        pre = ident if canon == "normal" else logf
+        post = ident if (canon == "normal" or calc == "std") else expf
+        return Tup((pre, post))
+    return FuncV(f, "_distribution_factory")
+
+
+def _stat_inputs(name):
+    def mk(ex, st):
+        st.env["values"] = ex.alloc_arr(st, (NV_,), VALS, "real", "param:values", tag="values")
+        st.env["distribution"] = StrV(name)
+        st.env["weights"] = NONE
+        st.env["mean_kwargs"] = st.env["std_kwargs"] = NONE
+        st.env["denominator"] = StrV("nist")
+        st.env["NV_"] = NV_
+        k = z3.Int("k!v")
+        return [NV_ >= 2, z3.ForAll([k], z3.And(z3.Select(VALS, k) != NAN, z3.Select(VALS, k) > 0, LOG(z3.Select(VALS, k)) != NAN), patterns=[z3.Select(VALS, k)])]
+    return mk
+
+
+def _isnan_model(ex, st, args, kw, node):
+    return ex.map1(st, args[0], lambda x: x == NAN, "bool")
+
+
+for _name in ("normal", "lognormal", "log-normal"):
+    _canon = {"normal": "normal", "lognormal": "lognormal", "log-normal": "lognormal"}[_name]
+    _g, _S, _SS = _names(_canon)
+    _np = ModV("np", dict(npm.NP.attrs, nansum=_sum_model(_canon), sum=_sum_model(_canon), isnan=FuncV(_isnan_model, "np.isnan")))
+    _env = {"np": _np, "_distribution_factory": _factory_model(_canon), "DISTRIBUTION_MAP": DISTRIBUTION_MAP}
+    _mean_spec = "S / NV_" if _canon == "normal" else "exp(S / NV_)"
+    MEANC = Contract(qual="hvsrpy.statistics._nanmean_weighted", params=["distribution", "values", "weights", "mean_kwargs"],
+                     ghost={"S": _S, "exp": EXP}, make_inputs=_stat_inputs(_name), ensures=[f"result == {_mean_spec}"], modifies=[],
+                     notes="NaN-free sample, no explicit weights: arithmetic mean (normal) / geometric mean exp(mean(log v)) (lognormal)")
+    TASKS.append(FunctionTask(MEANC, module_env=_env, label=f"hvsrpy.statistics._nanmean_weighted[{_name}]", clauses=["mean estimator"]))
+
+    def _mean_call(ex, st, args, kw, node, _c=_canon, _S_=_S):
+        return _S_ / z3.ToReal(NV_) if _c == "normal" else EXP(_S_ / z3.ToReal(NV_))
+    _lm = "S / NV_" if _canon == "normal" else "log(exp(S / NV_))"
+    STDC = Contract(qual="hvsrpy.statistics._nanstd_weighted", params=["distribution", "values", "weights", "std_kwargs", "denominator"],
+                    ghost={"S": _S, "SS": _SS, "exp": EXP, "log": LOG, "sqrt": SQRT}, make_inputs=_stat_inputs(_name),
+                    ensures=[f"result == sqrt(SS({_lm}) / ((1 - 1 / NV_) * NV_))"], modifies=[],
+                    notes="sample standard deviation of g(values) about their mean, n-1 denominator (written as (1 - 1/n) n)")
+    TASKS.append(FunctionTask(STDC, module_env=dict(_env, _nanmean_weighted=FuncV(_mean_call, "_nanmean_weighted")),
+                              label=f"hvsrpy.statistics._nanstd_weighted[{_name}]", clauses=["standard deviation estimator"]))
+
+def function_maps(loader):
+    """the pre / post functions _distribution_factory hands out are the ones the contracts above assume"""
+    want = {"PRE_PROCESS_FUNCTION_MAP": {"normal": {"mean": "values", "std": "values"}, "lognormal": {"mean": "np.log(values)", "std": "np.log(values)"}},
+            "POST_PROCESS_FUNCTION_MAP": {"normal": {"mean": "values", "std": "values"}, "lognormal": {"mean": "np.exp(values)", "std": "values"}}}
+    out = []
+    for name, table in want.items():
+        node = loader.module_assign("hvsrpy.statistics", name)
+        got = {}
+        for k, v in zip(node.keys, node.values):
+            got[k.value] = {kk.value: (ast.unparse(vv.body).replace(" ", "") if isinstance(vv, ast.Lambda) and [a.arg for a in vv.args.args] == ["values"] else "?")
+                            for kk, vv in zip(v.keys, v.values)}
+        for dist, calcs in table.items():
+            for calc, body in calcs.items():
+                out.append((f"{name}[{dist!r}][{calc!r}] is lambda values: {body}", got.get(dist, {}).get(calc) == body.replace(" ", ""), str(got.get(dist, {}).get(calc))))
+        out.append((f"{name} has no other distributions", set(got) == set(table), str(sorted(got))))
+    return out
+
+
+TASKS.append(StructTask("PRE/POST_PROCESS_FUNCTION_MAP", function_maps))
+
 META = dict(
     level="other",
-    explanation="proved: _nth_std_factory for every distribution spelling (and NotImplementedError otherwise), DISTRIBUTION_MAP aliases (structural), "
+    explanation="proved: _nanmean_weighted and _nanstd_weighted for a NaN-free sample without explicit weights = arithmetic / geometric mean and sample standard "
+                "deviation (n-1) of g(values) for the three distribution spellings (sums over the sample named, np.nansum trusted; the pre/post function maps "
+                "checked structurally); _nth_std_factory for every distribution spelling (and NotImplementedError otherwise), DISTRIBUTION_MAP aliases (structural), "
                 "symmetry lemmas; cross-check (labelled, bounded): every statistic of HvsrTraditional against textbook estimators over the accepted "
                 "windows after random histories of range updates, FDWRA, manual rejections and mask replacement, object-from-accepted-windows "
-                "equivalence, lognormal reciprocal consistency - the vectorised NaN-aware numpy code of _nanmean_weighted/_nanstd_weighted is "
-                "outside the PyVC subset (boolean-mask compress, nansum)",
+                "equivalence, lognormal reciprocal consistency - the NaN-carrying and explicitly weighted uses of _nanmean_weighted/_nanstd_weighted "
+                "(azimuthal statistics, curves with axis=0) and the mask selections of the accessors are bounded only",
     trusted_base=["A-REAL", "A-PY", "A-LOGEXP", "numpy nansum/cov (external)", "PyVC engine + z3/cvc5"],
     assumptions=["A-REAL", "A-PY", "A-LOGEXP", "A-NP-SUM", "A-NP-COV", "A-NP-MASK"],
 )
